@@ -119,7 +119,9 @@ def run(ctx):
         off_runes = toks[idx][2] + len(toks[idx][1]) + (2 if toks[idx][0] in ("STRING", "REGEX") else 0)
         head = x.decode("utf-8", "replace")[:off_runes]
         tail, _ = rd.render(rng, [rng.randrange(22) for _ in range(rng.randrange(0, 6))])
-        sfx_lines.append("-1 " + hx((head + " " + tail).encode()))
+        # ... or by bytes that are not UTF-8 at all (a Latin-1 comment, a truncated or stray multi-byte sequence): still later text
+        junk = rng.choice([b"", b"", b" // caf\xe9\n", b"\n\xe2\x82", b" \x80 x", b"\n/* \xff\xfe */", b" \xc3"])
+        sfx_lines.append("-1 " + hx((head + " " + tail).encode() + junk))
         sfx_want.append(unhx(split_out(i)[1].split()[1]))
     if sfx_lines:
         got = ctx.run_impl("parse", sfx_lines)
@@ -131,7 +133,7 @@ def run(ctx):
                                   {"input_hex": l.split()[1], "input": unhx(l.split()[1]).decode("utf-8", "replace"),
                                    "implementation": gm.decode("utf-8", "replace"), "expected": w.decode("utf-8", "replace")})
     cov = {"evaluations": len(texts) + len(sfx_lines), "distinct_nontrivial": len(distinct),
-           "rule": "seeded random valid specifications rendered to text with random lexemes/separators/comments; every truncation, single-token deletion, replacement and insertion (thorough: at every position; quick: at 6 sampled positions), stray and unterminated lexical elements at token boundaries; then, for erroneous texts, the text after the offending token replaced by random tokens. non-trivial = distinct rejected text",
+           "rule": "seeded random valid specifications rendered to text with random lexemes/separators/comments; every truncation, single-token deletion, replacement and insertion (thorough: at every position; quick: at 6 sampled positions), stray and unterminated lexical elements at token boundaries; then, for erroneous texts, the text after the offending token replaced by random tokens, sometimes followed by bytes that are not UTF-8. non-trivial = distinct rejected text",
            "samples": [texts[-1].decode("utf-8", "replace"), texts[len(texts) // 3].decode("utf-8", "replace")],
            "expected_outcomes": kinds, "suffix_replacements": len(sfx_lines), "correspondence_disagreements": ncorr,
            "explanation": "partial proof (C20_error_token: error index <= |w| and exactly the tokens before it were shifted; C20_suffix_irrelevant: run up to the error is independent of what follows; lexical: C05_error_prefix) + exploration of minimality of the error position against the independent recursive-descent recogniser (viable-prefix oracle); the correct-prefix property of the tables (C20_viable) is not proved",
